@@ -607,7 +607,7 @@ def _tabled1(ctx):
                         else:
                             understood = False
                             got.append(show(a))
-                    if not understood:
+                    if not understood or any(b_ not in ("t", "d") for b_, _, _ in got):
                         inter.unknown([str(x) for x in got])
                     elif [(b_, lo_) for b_, lo_, _ in got] != want or any(st_ != per for _, _, st_ in got) or len(u_here) != 1:
                         inter.bad([str(x) for x in got])
@@ -686,7 +686,7 @@ def _tabled1(ctx):
                 continue
             bases, lo_, hi_ = ps
             if bases != (("sym", "t"), ("sym", "d")):
-                loop.bad({"rendered": [show(b_) for b_ in bases]})
+                (loop.bad if set(bases) <= {("sym", "t"), ("sym", "d")} else loop.unknown)({"rendered": [show(b_) for b_ in bases]})
             if hi_ != N:
                 loop.bad({"the loop ends at": show(hi_), "number of points": show(N)})
             if u is not None and lo_ != u:
@@ -833,15 +833,27 @@ def r2_nonempty_vector(ctx):
     # the accessor chosen for a vector whose length is not 1 (and which is not 2-D) indexes element i; a zero-length vector reaches it
     acc = None
     for e in E.events("call"):
-        if e.d["attr"] == "append" and e.loops and len(e.d["args"]) == 1 and isinstance(e.d["args"][0], tuple) and e.d["args"][0][:1] == ("func",):
-            name = e.d["args"][0][1]
-            sub = ctx.src.mod(WRITER).funcs.get("vecwrite." + name)
-            if sub is None or len(sub.args.args) != 2:
-                continue
-            a, i = (x.arg for x in sub.args.args)
-            Es = M.Engine(ctx.src.mod(WRITER), sub)
-            Es.run()
-            rets = [r.d["value"] for r in Es.events("return")]
+        if e.d["attr"] in ("append", "extend", "insert") and e.loops and e.d["args"] and isinstance(e.d["args"][-1], tuple) \
+                and e.d["args"][-1][:1] in (("func",), ("sym",), ("lambda",)):
+            ref = e.d["args"][-1]
+            name = str(ref[1])
+            mw = ctx.src.mod(WRITER)
+            if ref[0] == "lambda":
+                lam = getattr(E, "lambdas", {}).get(ref[1])
+                if lam is None or len(lam.args.args) != 2:
+                    continue
+                a, i = (x.arg for x in lam.args.args)
+                Es = M.Engine(mw, fn)
+                rets = [Es.ev(lam.body, M.State({a: ("sym", a), i: ("sym", i)}))]
+                name = "<lambda>"
+            else:
+                sub = mw.funcs.get("vecwrite." + name) if ref[0] == "func" else mw.funcs.get(name)
+                if sub is None or len(sub.args.args) != 2:
+                    continue
+                a, i = (x.arg for x in sub.args.args)
+                Es = M.Engine(mw, sub)
+                Es.run()
+                rets = [r.d["value"] for r in Es.events("return")]
             idx = ("elem", ("sym", a), ("sym", i))
             if rets and all(r == ("tuple", (idx,)) for r in rets):
                 # 1-D accessor: can the vector be empty here?
